@@ -760,6 +760,14 @@ pub fn scenario_tamper(ctx: &mut Ctx) -> ScResult {
         ctx.st.inc("fault.mac_over_final_message_length");
         tamper(ctx, &x, "integrity attribute re-computed over the final message length", a.off)?;
     }
+    // (b'') structural tampering: an attribute inserted in front of the integrity attribute (random,
+    // MAC echo, copy of the integrity attribute), every other byte as it was, length and FINGERPRINT
+    // corrected — no key needed; must be refused or fail validation like any other change
+    for _ in 0..4 {
+        if let Some((x, at)) = insert_before_integrity(ctx, &m, &view) {
+            tamper(ctx, &x, "attribute inserted in front of the integrity attribute", at)?;
+        }
+    }
     // (c) other keys
     for _ in 0..6 {
         let other = gen_other_creds(ctx.ch, &creds);
@@ -948,7 +956,7 @@ pub fn scenario_tailsplice(ctx: &mut Ctx) -> ScResult {
     }
     let x = fm.encode();
     ev!(ctx, "foreign message {}B: {:?}", x.len(), fm.items.iter().map(item_name).collect::<Vec<_>>());
-    judge_exposure(ctx, &x, &lc)?;
+    judge_exposure(ctx, &x, &lc, &creds.reference())?;
     // 2. attacker rewrites the tail of a library-built, signed message in flight
     let pool = gen_addr_pool(ctx.ch, 3);
     let attrs = gen_attrs(ctx.ch, &pool, &SpecOpts { max_attrs: 4, big: 0 });
@@ -956,7 +964,7 @@ pub fn scenario_tailsplice(ctx: &mut Ctx) -> ScResult {
     let spec = MsgSpec { class: ctx.ch.below(4) as u8, method: 1, tid: gen_tid(ctx.ch), attrs, seals: seals_of(variant, &creds) };
     let m = spec.build();
     ev!(ctx, "library message {}B: {}", m.len(), spec.desc());
-    judge_exposure(ctx, &m, &lc)?;
+    judge_exposure(ctx, &m, &lc, &creds.reference())?;
     let Verdict::Accept(view) = refcodec::decode(&m) else {
         return Err(Violation::new("C10", "builder_output_wellformed", "reference_rejects", format!("reference decoder rejects the builder's output: {:?}", refcodec::decode(&m))));
     };
@@ -995,7 +1003,7 @@ pub fn scenario_tailsplice(ctx: &mut Ctx) -> ScResult {
         }
         ctx.st.inc("fault.tail_rewrite");
         ev!(ctx, "  tail rewritten -> {}B {:?}", y.len(), tmp.items[fi + 1..].iter().map(item_name).collect::<Vec<_>>());
-        judge_exposure(ctx, &y, &lc)?;
+        judge_exposure(ctx, &y, &lc, &creds.reference())?;
         if let Some(after) = lib_view("C10", &y)? {
             let pa: Vec<(u16, Vec<u8>)> = after.iter().take(fi + 1).cloned().collect();
             if pa != prefix_exposed {
@@ -1026,7 +1034,7 @@ pub fn scenario_tailsplice(ctx: &mut Ctx) -> ScResult {
         };
         y.extend_from_slice(&extra);
         ctx.st.inc("fault.bytes_appended_after_signed_message");
-        judge_exposure(ctx, &y, &lc)?;
+        judge_exposure(ctx, &y, &lc, &creds.reference())?;
         if let Some(after) = lib_view("C10", &y)? {
             let pa: Vec<(u16, Vec<u8>)> = after.iter().take(fi + 1).cloned().collect();
             if pa != prefix_exposed || after.len() > before.len() {
@@ -1037,12 +1045,70 @@ pub fn scenario_tailsplice(ctx: &mut Ctx) -> ScResult {
         }
         ctx.st.cases += 1;
     }
+    // 4. the attacker inserts an attribute in front of the integrity attribute (random bytes, an echo
+    // of the MAC, a copy of the integrity attribute), MAC untouched, FINGERPRINT recomputed
+    for _ in 0..3 {
+        if let Some((y, _)) = insert_before_integrity(ctx, &m, &view) {
+            judge_exposure(ctx, &y, &lc, &creds.reference())?;
+            ctx.st.cases += 1;
+        }
+    }
     ctx.st.cases_nontrivial = ctx.st.cases;
     ctx.st.nontrivial = true;
     Ok(())
 }
 
-fn judge_exposure(ctx: &mut Ctx, x: &[u8], lc: &MessageIntegrityCredentials) -> ScResult {
+/// An on-path attacker without the key inserts one attribute *in front of* the first integrity
+/// attribute of a sealed message (at the start of attribute `j`, j <= index of that attribute),
+/// leaves every other byte — the MAC included — as it was, corrects the header length and, when the
+/// message ended in a FINGERPRINT, recomputes it (no key needed).  The inserted value is random, or
+/// an echo of the MAC (the value of the first or of the last integrity attribute, optionally followed
+/// by a few more bytes), or a copy of the whole integrity attribute.  The HMAC covers everything in
+/// front of its attribute, so no correct MAC can survive this; a validator that locates "its"
+/// attribute or "its" input by anything other than the attribute walk may be fooled.
+/// Returns the forged buffer and the insertion offset.
+fn insert_before_integrity(ctx: &mut Ctx, m: &[u8], view: &refcodec::RefView) -> Option<(Vec<u8>, usize)> {
+    let fi = view.first_integrity?;
+    let j = if ctx.ch.coin() { fi } else { ctx.ch.below(fi as u64 + 1) as usize };
+    let at = view.all[j].off;
+    let ints: Vec<usize> = (0..view.all.len()).filter(|&i| view.all[i].ty == MI || view.all[i].ty == MI256).collect();
+    let mut val: Vec<u8> = match ctx.ch.below(5) {
+        0 => {
+            let n = ctx.ch.range(1, 6) as usize * 4;
+            ctx.ch.bytes(n)
+        }
+        1 | 2 => view.all[fi].value(m).to_vec(),
+        3 => view.all[*ints.last()?].value(m).to_vec(),
+        _ => {
+            let a = &view.all[fi];
+            m[a.off..a.off + 4 + a.len].to_vec()
+        }
+    };
+    let extra = *ctx.ch.pick(&[0usize, 0, 4, 8, 3]);
+    let more = ctx.ch.bytes(extra);
+    val.extend_from_slice(&more);
+    let ty = *ctx.ch.pick(&[0x8022u16, 0xc057, 0x802b, 0x0013]);
+    let mut y = m[..at].to_vec();
+    y.extend_from_slice(&ty.to_be_bytes());
+    y.extend_from_slice(&(val.len() as u16).to_be_bytes());
+    y.extend_from_slice(&val);
+    while y.len() % 4 != 0 {
+        y.push(0);
+    }
+    y.extend_from_slice(&m[at..]);
+    if y.len() - 20 > 0xffff {
+        return None;
+    }
+    let l = (y.len() - 20) as u16;
+    y[2..4].copy_from_slice(&l.to_be_bytes());
+    if view.all.last().map(|a| a.ty) == Some(FP) {
+        refcodec::refingerprint(&mut y);
+    }
+    ctx.st.inc("fault.attribute_inserted_before_integrity");
+    Some((y, at))
+}
+
+fn judge_exposure(ctx: &mut Ctx, x: &[u8], lc: &MessageIntegrityCredentials, rc: &refcodec::RefCreds) -> ScResult {
     let parsed = g("C10", "Message::from_bytes", || Message::from_bytes(x))?;
     let rf = refcodec::decode(x);
     ctx.st.cases += 1;
@@ -1065,6 +1131,15 @@ fn judge_exposure(ctx: &mut Ctx, x: &[u8], lc: &MessageIntegrityCredentials) -> 
                 if !view.all.iter().any(|x| x.ty == ty) {
                     let v = Violation::new("C10", "validated_attribute_covers_exposed", &tail_names(view), format!("validate_integrity reported {a:?}, but the message carries no attribute of that algorithm"));
                     ev!(ctx, "  !! {}", v.message);
+                    return Err(v);
+                }
+                // ... and the HMAC it checked must be a real one: an attribute of that algorithm whose
+                // value is the RFC MAC of everything in front of it.  (Which of several correct ones
+                // it reports, and whether a wrong one elsewhere makes it refuse, is C04's business.)
+                let st = refcodec::integrity_status(x, view, rc);
+                if !st.iter().any(|s| s.1 == ty && s.2) {
+                    let v = Violation::new("C10", "validated_attribute_covers_exposed", "no_correct_mac_of_reported_algorithm", format!("validate_integrity reported {a:?} for a {}-byte message ({}), but no attribute of that algorithm carries the HMAC of the bytes in front of it: the exposed attributes are not inside the byte range of any HMAC that was checked", x.len(), tail_names(view)));
+                    ev!(ctx, "  !! {} {}", v.message, hex(x));
                     return Err(v);
                 }
                 ctx.st.inc("probe.validate_integrity_ok");
